@@ -9,6 +9,7 @@ import (
 	"github.com/pentops/golib/gl"
 	"github.com/pentops/j5/gen/j5/ext/v1/ext_j5pb"
 	"github.com/pentops/j5/gen/j5/messaging/v1/messaging_j5pb"
+	"github.com/pentops/j5/gen/j5/schema/v1/schema_j5pb"
 	"github.com/pentops/j5/internal/bcl/errpos"
 	"github.com/pentops/j5/internal/j5s/sourcewalk"
 	"google.golang.org/protobuf/proto"
@@ -307,6 +308,12 @@ func (ww *conversionVisitor) visitOneofNode(node *sourcewalk.OneofNode) {
 		Property: func(node *sourcewalk.PropertyNode) error {
 			schema := node.Schema
 			schema.ProtoField = []int32{node.Number}
+
+			if _, isMap := node.Field.Schema.(*schema_j5pb.Field_Map); isMap {
+				// protobuf does not allow a map field in a oneof
+				ww.addErrorf(node.Source, "option %s: a map cannot be an option of a oneof", schema.Name)
+				return nil
+			}
 
 			propertyDesc, err := buildProperty(ww, node)
 			if err != nil {
